@@ -11,7 +11,7 @@ tvars == <<l, bases, nfaults, answered>>
 IsEvent(e) == l <= NRec /\ Rec[l].ev = e /\ l' = l + 1
 TInit == l = 1 /\ bases = <<>> /\ Init
 TBase == /\ IsEvent("base")
-         /\ bases' = Append(bases, [name |-> Rec[l].name, nslots |-> Rec[l].nslots, classes |-> Rec[l].classes, ntails |-> Rec[l].ntails, nbodies |-> Rec[l].nbodies])
+         /\ bases' = Append(bases, [name |-> Rec[l].name, nslots |-> Rec[l].nslots, classes |-> Rec[l].classes, ntails |-> Rec[l].ntails, nbodies |-> Rec[l].nbodies, nrefs |-> Rec[l].nrefs])
          /\ UNCHANGED <<nfaults, answered>>
 BaseOf(name) == LET S == {i \in 1..Len(bases) : bases[i].name = name} IN bases[CHOOSE i \in S : TRUE]
 Problems(ev) ==
